@@ -97,6 +97,46 @@ def iter_tempo(cx, shape, ulps=0):
     cx.check(all(all(a is not o for o in originals) for a in out), 'yields-copies')
 
 
+def _judge_times(cx, mido, mid, tpb, tag):
+    ref = _reference(cx, mido, mid, tpb)
+    out = list(mid)
+    cx.check(len(out) == len(ref) and all(_same_but_time(a, m) for a, (m, _) in zip(out, ref)), tag + 'messages')
+    cum = 0.0
+    for a, (m, want) in zip(out, ref):
+        cum = cum + a.time
+        cx.check(cx.close(cum, want, 0), tag + 'cumulative')
+    cx.check(cx.close(mid.length, ref[-1][1] if ref else 0.0, len(out)), tag + 'length')
+
+
+@harness(labels=['after-edit:messages', 'after-edit:cumulative', 'after-edit:length'])
+def edited(cx, shape):
+    """length, iteration and play() were already used once; then the file is changed IN PLACE (a delta, a tempo
+    value, a message replaced by index, ticks_per_beat - the number of messages stays the same) and everything
+    is judged again against the tempo map of the file as it is NOW."""
+    import mido
+    mid, tpb = _file(cx, mido, shape)
+    mid.length
+    list(mid)
+    where = [(tr, i) for tr in mid.tracks for i in range(len(tr))]
+    edit = cx.choice('edit', 4)
+    if edit == 3:
+        tpb = cx.int('tpb2', 1, 32767)
+        mid.ticks_per_beat = tpb
+    else:
+        if not where:
+            cx.assume(False)
+        tr, i = where[cx.choice('at', len(where))]
+        if edit == 0:
+            tr[i].time = cx.int('new_dt', 0, D28)
+        elif edit == 1:
+            if tr[i].type != 'set_tempo':
+                cx.assume(False)
+            tr[i].tempo = cx.int('new_tempo', 0, TEMPO_MAX)
+        else:
+            tr[i] = tr[i].copy(time=cx.int('new_dt', 0, D28))
+    _judge_times(cx, mido, mid, tpb, 'after-edit:')
+
+
 @harness(labels=['type2-iter-refused', 'type2-length-refused', 'type2-play-refused'])
 def type2(cx, shape):
     import mido
@@ -247,7 +287,7 @@ BOUNDS = {
     'quick': 'exact-real model: every merged shape of <=4 events over {note_on, set_tempo, text, end_of_track} in 1 track and '
              'selected 2-track shapes, ticks_per_beat in 1..32767, tempos in 0..2^24-1, deltas in 0..2^28 all symbolic: yielded '
              'messages, cumulative time == exact tempo-map integral, length, copies; standard-rounding model (each float op '
-             'x(1+d), |d|<=2^-53) for shapes of <=2 deltas; type 2 refusal; play() on a symbolic clock (start, oversleep and '
+             'x(1+d), |d|<=2^-53) for shapes of <=2 deltas; type 2 refusal for 0, 1, 2 and 3 tracks; in-place edits (delta, tempo value, replacement by index, ticks_per_beat) after length/iteration were already read once, 7 shapes; play() on a symbolic clock (start, oversleep and '
              'consumer delay symbolic reals; deltas symbolic, tempo from a 3-value menu, ticks_per_beat 96) for shapes of <=3 events; tick2second/second2tick inverse for t<2^31 in both models',
     'thorough': 'play() shapes of 4 events (the rounding model stays at <=2 deltas: with three z3 answers unknown on some shapes)',
 }
@@ -285,6 +325,10 @@ def JOBS(tier):
                      {'width': 0, 'rounding': True, 'cost': 200, 'solver_timeout_ms': 120000}))
     for s in ('', 'n', 'nT'):
         jobs.append((type2, {'shape': [s, 'n']}, {'width': 0}))
+    for sh in ([], [''], ['n'], ['nTn'], ['n', 'T', 'n']):      # any number of tracks, also none and one
+        jobs.append((type2, {'shape': sh}, {'width': 0}))
+    for sh in (['n'], ['nT'], ['Tn'], ['nTn'], ['TnT'], ['nT', 'n'], ['T', 'nn']):
+        jobs.append((edited, {'shape': sh}, {'width': 0, 'cost': 200}))
     for s in _shapes(3 if quick else 4):
         for mm in (False, True):
             jobs.append((play_clock, {'shape': [s], 'meta_messages': mm}, {'width': 0, 'cost': 3 ** len(s)}))
